@@ -18,6 +18,8 @@ pub fn string_symbol(vm: &mut Vm) -> Result<VCell, Error> {
     let sym = s
         .char_indices()
         .map(|(idx, c)| match c {
+            // a backslash introduces an escape in a symbol's name
+            '\\' => "\\x5c;".to_string(),
             c if idx == 0 && lex::is_initial_identifier(c) => c.to_string(),
             c if idx > 0 && lex::is_subsequent_identifier(c) => c.to_string(),
             c => format!("\\x{:x};", c as u32),
